@@ -233,6 +233,11 @@ func runMarch(d desc) marchOutcome {
 			o.blocks++
 		}
 	}
+	if d.NoMarch {
+		o.marchEq = true
+		o.coq = marchCoq(d, sr, pr, o)
+		return o
+	}
 	sm, sp := marchMesh(func() modeling.Mesh { return seqC.March(d.Cutoff) })
 	pm, pp := marchMesh(func() modeling.Mesh { return parC.MarchParallel(d.Cutoff) })
 	o.seqPanic, o.parPanic = sp, pp
@@ -255,13 +260,17 @@ func runMarch(d desc) marchOutcome {
 	} else if !o.marchEq {
 		o.detail = fmt.Sprintf("sequential panic %q, parallel panic %q", sp, pp)
 	}
+	o.coq = marchCoq(d, sr, pr, o)
+	return o
+}
+
+func marchCoq(d desc, sr, pr []chunkRow, o marchOutcome) string {
 	boxes := make([]string, len(d.Fields))
 	for i, f := range d.Fields {
 		mn, mx := f.box()
 		boxes[i] = fmt.Sprintf("((%s,%s,%s),(%s,%s,%s))", hx.CoqZ(int64(mn[0])), hx.CoqZ(int64(mn[1])), hx.CoqZ(int64(mn[2])),
 			hx.CoqZ(int64(mx[0])), hx.CoqZ(int64(mx[1])), hx.CoqZ(int64(mx[2])))
 	}
-	o.coq = fmt.Sprintf("CMarch [%s] %d%%nat %s %s %s %s", strings.Join(boxes, ";"), d.NFun, rowsCoq(sr), rowsCoq(pr),
+	return fmt.Sprintf("CMarch [%s] %d%%nat %s %s %s %s", strings.Join(boxes, ";"), d.NFun, rowsCoq(sr), rowsCoq(pr),
 		hx.CoqBool(o.canvasEq), hx.CoqBool(o.marchEq))
-	return o
 }
